@@ -76,6 +76,7 @@ let cres_tok = function
   | COkList (mb, l) -> headers_tok (List.map (jheader_of mb) l)
   | COkMsg (mb, v) -> "M@" ^ field_of_str mb ^ ":" ^ msg_tok false (jmessage_of mb [] v)
   | COkSrc v -> "S:" ^ tag_of v
+  | COkRaw -> "S:BAD"     (* a 200 body that is not a message source, handed back as the source *)
 
 let hout_tok = function
   | OAdded _ -> "A"
